@@ -512,7 +512,9 @@ func (s *Sim) pick(self *G, withSelf bool) *G {
 			} else {
 				s.lastG, s.sameRun = self, 0
 			}
-			if s.sameRun >= FairnessBound {
+			if s.sameRun >= FairnessBound+s.Probes["fairness_forced_switch"]%3 {
+				// (the bound varies - 128, 129, 130 - so that forced switches cannot stay in
+				// step with a spin of period two or three)
 				s.sameRun = 0
 				s.Probes["fairness_forced_switch"]++
 				// the runnable goroutine that has waited longest gets the turn
